@@ -1,4 +1,5 @@
 """C05 — state queries agree with the schedule, whatever was asked before."""
+from . import common
 from .framework import Failure
 from .sessioncheck import SessionCheck
 
@@ -44,6 +45,12 @@ class C05(SessionCheck):
         return [(4, [case["spec"], case["filters"], items])]
 
     def judge(self, case, obs, outs):
+        if case.get("kind") == "user_filter":
+            if obs["clock_went_back"]:
+                self.note("user_filter_sessions_in_which_the_clock_went_back")
+            return [Failure("oracle", "user-filter:" + what,
+                            f"dispatcher with the user-defined filter '{self.USER_FILTERS[case['filter']]}': {detail}")
+                    for what, detail in obs["problems"]]
         model_out, _clauses, spec_q = outs
         fails = self.tie_failures(case, obs, model_out) + self.reset_failures(case, obs)
         rows = self.rows_before(case, obs)
@@ -85,7 +92,118 @@ class C05(SessionCheck):
                 return False
         return alive
 
+    # ---- user-defined ready-operations filters (any callable is accepted by Dispatcher: public API). The model's
+    # filter names enumerate the built-in ones, so these sessions have no model; they are judged by the clauses of
+    # the property that need none: the partitions, "uncompleted = unscheduled + ongoing", completed = the scheduled
+    # operations that ended by current_time(), available = what the filter returns on the ready operations, and the
+    # same answers whatever was asked before, in whatever order, however often. Under such a filter the current
+    # time may go DOWN from one state to the next.
+    USER_FILTERS = ("highest_job_only", "lowest_job_only", "last_ready_only", "drop_first_when_several")
+
+    @staticmethod
+    def user_filter(k):
+        def highest_job_only(_d, ops):
+            return [o for o in ops if o.job_id == max(x.job_id for x in ops)]
+
+        def lowest_job_only(_d, ops):
+            return [o for o in ops if o.job_id == min(x.job_id for x in ops)]
+
+        def last_ready_only(_d, ops):
+            return ops[-1:]
+
+        def drop_first_when_several(_d, ops):
+            return ops[1:] if len(ops) > 1 else ops
+
+        return [highest_job_only, lowest_job_only, last_ready_only, drop_first_when_several][k]
+
+    def gen_cases(self, rng, n):
+        cases = super().gen_cases(rng, n)
+        for _ in range(max(20, n // 20)):
+            spec = common.gen_instance(rng, max_jobs=4, max_machines=3, max_ops=3, allow_empty_jobs=False)
+            cases.append({"kind": "user_filter", "spec": spec, "filter": rng.randrange(len(self.USER_FILTERS)),
+                          "seed": rng.randrange(10 ** 6)})
+            self.note("sessions_under_a_user_defined_filter")
+        return cases
+
+    def run_impl(self, case):
+        if case.get("kind") != "user_filter":
+            return super().run_impl(case)
+        import random as _random
+
+        common.import_impl()
+        from job_shop_lib.dispatching import Dispatcher
+
+        inst = common.build_instance(case["spec"])
+        filt = self.user_filter(case["filter"])
+        d = Dispatcher(inst, ready_operations_filter=filt)
+        r = _random.Random(case["seed"])
+        key = lambda o: (o.job_id, o.position_in_job)   # noqa: E731
+        all_ops = {key(o) for job in inst.jobs for o in job}
+        problems = []
+        states = 0
+        went_back = 0
+        prev_now = None
+        queries = ["current_time", "available_operations", "unscheduled_operations", "scheduled_operations",
+                   "ongoing_operations", "completed_operations", "uncompleted_operations", "raw_ready_operations"]
+
+        def ask(name):
+            v = getattr(d, name)()
+            if name == "current_time":
+                return v
+            if name == "ongoing_operations":
+                return sorted(key(s.operation) for s in v)
+            return sorted(key(o) for o in v)
+
+        while True:
+            states += 1
+            answers = []
+            for _ in range(2):
+                order = list(queries)
+                r.shuffle(order)
+                order = order[:r.randint(3, len(order))] if _ == 0 else order
+                answers.append({q: ask(q) for q in order})
+            first, second = answers
+            for q, v in first.items():
+                if second[q] != v:
+                    problems.append(["order-dependence", f"{q}() answered {v} and then {second[q]} in the same state"])
+            a = second
+            now = a["current_time"]
+            if prev_now is not None and now < prev_now:
+                went_back += 1
+            prev_now = now
+            sched = {key(s.operation): s for row in d.schedule.schedule for s in row}
+            if set(a["scheduled_operations"]) | set(a["unscheduled_operations"]) != all_ops or \
+                    set(a["scheduled_operations"]) & set(a["unscheduled_operations"]):
+                problems.append(["partition", "scheduled / unscheduled do not partition the operations"])
+            if sorted(a["ongoing_operations"] + a["completed_operations"]) != a["scheduled_operations"] \
+                    or set(a["scheduled_operations"]) != set(sched):
+                problems.append(["partition", f"ongoing {a['ongoing_operations']} / completed "
+                                              f"{a['completed_operations']} do not partition the scheduled "
+                                              f"operations {a['scheduled_operations']}"])
+            if sorted(a["unscheduled_operations"] + a["ongoing_operations"]) != a["uncompleted_operations"]:
+                problems.append(["partition", "uncompleted is not unscheduled plus ongoing"])
+            done = sorted(k for k, s in sched.items() if s.end_time <= now)
+            if done != a["completed_operations"]:
+                problems.append(["completed", f"current_time() = {now}: completed_operations() = "
+                                              f"{a['completed_operations']}, the scheduled operations that ended by "
+                                              f"then are {done}"])
+            raw = d.raw_ready_operations()
+            if a["available_operations"] != sorted(key(o) for o in filt(d, list(raw))):
+                problems.append(["available", "available_operations() is not the filter applied to the ready operations"])
+            if problems or d.schedule.is_complete():
+                break
+            op = r.choice(raw)
+            d.dispatch(op, r.choice(op.machines))
+        return {"problems": problems[:3], "states": states, "clock_went_back": went_back}
+
+    def model_requests(self, case, obs):
+        if case.get("kind") == "user_filter":
+            return []
+        return super().model_requests(case, obs)
+
     def nontrivial(self, case, obs):
+        if case.get("kind") == "user_filter":
+            return obs["states"] >= 3
         nq = sum(1 for ev in case["events"] if ev[0] == 1)
         nd = sum(1 for ev, o in zip(case["events"], obs) if ev[0] == 0 and o and o[0] == 0)
         return nq >= 3 and nd >= 2
